@@ -46,6 +46,10 @@ EXTRA = {
         "grouping the converter is consulted; when conversions fail, any of the errors of the failing columns (or "
         "the injected failure the converter actually raised) is accepted; which one comes first is proved for the "
         "model (first_failure_error) and compared with the code through the correspondence",
+        "the correspondence is independent of the order in which the implementation converts the columns: returned "
+        "tables are compared in full; an exception of the implementation must be the model's or one that some column "
+        "raises on its own in the model; disagreements on dispatchers outside ColumnUnitDispatcher (a Mapping that is "
+        "not a dict) are counted in the evidence, not reported",
         "the per-column spellings `__base__` / `__origin__` and the whole-table form 'origin' are modelled and "
         "compared with the code but are outside the oracle (the statement does not speak about them)",
     ],
@@ -669,16 +673,36 @@ def oracle(case, obs, out):
 
 # ---------------------------------------------------------------- comparison with the model
 
+OUT_OF_DOMAIN_OTHER = ("mappingproxy",)     # dispatcher kinds outside ColumnUnitDispatcher (Sequence | Dict | Callable)
+MISS = "<oracle-miss>"
+
+
 def compare(case, obs, ans, out):
+    """implementation vs model.  The model converts the columns first to last; the statement fixes neither the order
+    of work nor a priority between the errors of different columns, so: tables are compared in full; when the
+    implementation raised, its exception must be the model's, or one that some column raises on its own in the model
+    (`col_errors`); a converter call of the model that the implementation never made ("<oracle-miss>") is a mismatch
+    only when the implementation returned a table."""
     if not isinstance(ans, dict) or "error" in ans or "res" not in ans:
         out.mismatch("driver error", case, {k: obs.get(k) for k in ("exc", "result")}, ans)
         return
     m = ans["res"]
     if obs.get("unreadable"):
         return          # reported by the oracle; there is no observation to compare
+    if case["to"]["kind"] == "other" and case["to"].get("what") in OUT_OF_DOMAIN_OTHER:
+        # outside the declared domain: what the code does with such a dispatcher is counted, not judged
+        agree = (m == {"exc": obs["exc"]}) if "exc" in obs else ("table" in m)
+        out.count("out_of_domain_dispatcher:" + ("agree" if agree else "disagree"))
+        return
     if "exc" in obs:
-        if m != {"exc": obs["exc"]}:
-            out.mismatch("convert_units: exception vs Lean model", case, {"exc": obs["exc"]}, m)
+        col_errors = set(ans.get("col_errors", [])) - {MISS}
+        if m == {"exc": obs["exc"]}:
+            pass
+        elif "exc" in m and obs["exc"] in col_errors:
+            out.count("correspondence:another_column's_error_first")
+        else:
+            out.mismatch("convert_units: exception vs Lean model", case, {"exc": obs["exc"]},
+                         dict(m, col_errors=sorted(col_errors)))
             return
     else:
         if "table" not in m:
